@@ -8,6 +8,7 @@
 package main
 
 import (
+	"regexp"
 	"bufio"
 	"bytes"
 	"encoding/binary"
@@ -237,6 +238,59 @@ func runWorker(bin string, job *Job, gomaxprocs int, extraEnv ...string) (*Resul
 	return &res, nil
 }
 
+var crashHeliosFrame = regexp.MustCompile(`(?m)^\s+\S*?/((?:internal|cmd/helios)/[^\s:]+\.go):(\d+)`)
+
+// crashReport recognises a worker that was ended by a Go runtime fatal error raised in Helios
+// code and writes a report file for it; it returns the VIOLATION line ("" if this is something
+// else, i.e. harness trouble).
+func crashReport(prop, tier string, w int, job *Job, replayDir string) string {
+	data, err := os.ReadFile(job.Out + ".log")
+	if err != nil {
+		return ""
+	}
+	out := string(data)
+	i := strings.Index(out, "fatal error: concurrent map")
+	if i < 0 {
+		return ""
+	}
+	head := out[i:]
+	msg := head
+	if j := strings.Index(msg, "\n"); j > 0 {
+		msg = msg[:j]
+	}
+	// the goroutine that was running: its first non-test Helios frame
+	stack := head
+	if j := strings.Index(stack, "\n\ngoroutine "); j > 0 { // (the running goroutine's own header)
+		if k := strings.Index(stack[j+2:], "\n\ngoroutine "); k > 0 {
+			stack = stack[:j+2+k]
+		}
+	}
+	site := ""
+	for _, m := range crashHeliosFrame.FindAllStringSubmatch(stack, -1) {
+		if !strings.HasSuffix(m[1], "_test.go") {
+			site = m[1] + ":" + m[2]
+			break
+		}
+	}
+	if site == "" {
+		return ""
+	}
+	os.MkdirAll(replayDir, 0o755)
+	fp := prop + "/process-crash{" + strings.TrimPrefix(msg, "fatal error: ") + "@" + site + "}"
+	path := filepath.Join(replayDir, sanitize(prop+"-"+fp)+fmt.Sprintf("-crash-w%d.json", w))
+	if len(head) > 20000 {
+		head = head[:20000]
+	}
+	rep := map[string]any{"property": prop, "fingerprint": fp, "kind": "process-crash", "tier": tier, "base_seed": job.Seed, "scenarios": job.Scenarios,
+		"message": "a Go runtime fatal error in Helios code ended the worker process (it would end the real process as well): " + msg + " at " + site,
+		"note":    "the goroutine schedule that led here is the Go runtime's, not seed-decided: re-running the same check usually reproduces it, a replay of this file does not apply", "output": head}
+	b, _ := json.MarshalIndent(rep, "", " ")
+	if os.WriteFile(path, b, 0o644) != nil {
+		return ""
+	}
+	return fmt.Sprintf("VIOLATION property=%s replay=%s\n  fingerprint=%s", prop, path, fp)
+}
+
 // ---------------------------------------------------------------------------
 // known findings
 
@@ -418,6 +472,7 @@ func check(prop, tier string) int {
 	if tier == "thorough" {
 		wall = plan.ThoroughWallS
 	}
+	var crashLines []string
 	m := newMerged()
 	buildS := 0.0
 	for pi, ph := range phases {
@@ -492,12 +547,26 @@ func check(prop, tier string) int {
 						fmt.Fprintf(os.Stderr, "vrun: the worker's full output is kept in %s\n", keep)
 					}
 				}
+				// A Go runtime fatal error inside Helios code ("concurrent map writes" and its
+				// kin) cannot be recovered by anybody: it ends the real process too. That is
+				// a finding about Helios, not trouble with the harness.
+				if rep := crashReport(prop, tier, w, jobs[w], replayDir); rep != "" {
+					crashLines = append(crashLines, rep)
+					continue
+				}
 				trouble("%v", errs[w])
 			}
 			if results[w] != nil {
 				m.add(results[w], jobs[w].HashOut)
 			}
 		}
+	}
+	if len(crashLines) > 0 {
+		for _, l := range crashLines {
+			fmt.Println(l)
+		}
+		fmt.Printf("check %s %s: a worker process was ended by a Go runtime fatal error in Helios code (see above); the other results are not reported\n", prop, tier)
+		return 1
 	}
 	b := phases[0].b
 	if len(m.harnessErrs) > 0 {
@@ -790,6 +859,10 @@ func replayCmd(file string) int {
 		Scenario    string `json:"scenario"`
 	}
 	json.Unmarshal(data, &rf)
+	if strings.Contains(string(data), `"kind": "process-crash"`) {
+		fmt.Printf("%s is the report of a worker process ended by a Go runtime fatal error (%s): there is no seeded schedule to replay; run the check again (bin/vcheck check %s quick)\n", file, rf.Fingerprint, rf.Property)
+		return 0
+	}
 	race := false
 	if p, ok := plans[rf.Property]; ok && p.Race {
 		race = true
